@@ -1,11 +1,11 @@
-"""Counterexample confirmation on REAL ZeroMQ (ipc://) with a REAL SIGKILL: a source with a synchronized consumer and a '?' listener
-is killed late in a run (ids around 150) and restarted at once (by a pre-forking supervisor: the replacement is up within a few
-milliseconds, i.e. before its consumers' 100 ms poll timeout makes them repeat their requests).  The requests its consumers had sent died with it.  The listener asks
-again first; the restarted source, which knows no synchronized client yet, starts publishing from id 0 at its own pace (every 20 ms).
-Every such frame reaches the synchronized consumer as an "older" message inside ZMQReceiver.recv's recv_once(), whose poll loop never
-times out while something arrives more often than ZMQ_POLL_TIMEOUT - so the consumer never gets to repeat its request and the source
-never learns the id it should continue from.  The consumer starves until the source has counted up to the old id by itself: a time that
-grows with the age of the pipeline (here ~3 s for 150 frames; an hour-old 30 fps pipeline needs another hour), not a bounded one.
+"""NOT a finding: the real-socket experiment that refuted a counterexample of an over-wide environment model (DESIGN 9.4).
+
+Model counterexample: a source with a synchronized consumer and a '?' listener is SIGKILLed late in a run (ids around 150) and
+replaced at once (a pre-forking supervisor: the replacement is up within ~2 ms).  The requests its consumers had sent died with it.  If
+the listener's repeated request reached the new source first, the source would publish from id 0 at its own pace, every such "older"
+frame would restart the synchronized consumer's poll inside ZMQReceiver.recv, the consumer would never repeat its request and would
+starve for id x period.  On real sockets this does not happen: the consumers' sockets re-attach RECONNECT_IVL (100 ms + jitter) after the
+break, and by then the consumer's 100 ms poll has timed out and its repeated request is queued.  Observed recovery: 0.23 s.
 usage: /venv/bin/python findings/c06_listener_restart_real_zmq.py <tree>     exit 1 = consumer starved after the restart, 0 = recovered"""
 
 import os, sys, tempfile, threading, time, logging, subprocess, signal
